@@ -11,6 +11,10 @@ func init() {
 	f := "internal/wat/watutil/wat2c/wat2c_func.go"
 	register(&Property{ID: "C03", Run: runC03, Mutants: []Mutant{
 		{Name: "epilogue chosen from the last instruction visited", File: f, Old: "\tvar lastTok token.Token\n\tif n := len(fn.Body.List); n > 0 {\n\t\tlastTok = fn.Body.List[n-1].Token()\n\t}\n\tswitch tok := lastTok; tok {", New: "\tswitch tok := stk.LastInstruction().Token(); tok {", Expect: "epilogue-on-top-level-last"},
+		{Name: "br_table locates the first result after popping them", File: f, Old: "\t\t\t\t\tfirstResultOffset := retIdxList[0]\n", New: "\t\t\t\t\tfirstResultOffset := stk.Len() - len(destScopeResults)\n", Expect: "carried-results-located :: wat2c INS_BR_TABLE"},
+		{Name: "br_table writes the moves before the case label", File: f, Old: "\t\t\t\t\t\tfmt.Fprintf(w, \"%s%s\\n\", indent, caseLabel)\n\t\t\t\t\t\tcaseLabel = \"\"\n", New: "", Expect: "switch-arm-statements-labelled :: wat2c INS_BR_TABLE: case label, results moved"},
+		{Name: "br_table writes the label only when nothing was moved", File: f, Old: "\t\t\t\t\t\tfmt.Fprintf(w, \"%s%s\\n\", indent, caseLabel)\n\t\t\t\t\t\tcaseLabel = \"\"\n", New: "\t\t\t\t\t\tcaseLabel = \"\"\n", Expect: "switch-arm-statements-labelled :: wat2c INS_BR_TABLE: default label, results moved"},
+		{Name: "br_table demands two labels", File: f, Old: "\t\tassert(len(i.XList) >= 1)\n", New: "\t\tassert(len(i.XList) > 1)\n", Expect: "br-table-accepts-default-only :: wat2c"},
 		{Name: "memory.grow tests size+delta in int32 arithmetic", File: f, Old: "fmt.Fprintf(w, \"%sif((uint32_t)R%d.i32 <= (uint32_t)(%s_memory_init_max_pages-%s_memory_size)) {\\n\",\n\t\t\tindent, sp0, p.opt.Prefix, p.opt.Prefix,", New: "fmt.Fprintf(w, \"%sif(%s_memory_size+R%d.i32 <= %s_memory_init_max_pages) {\\n\",\n\t\t\tindent, p.opt.Prefix, sp0, p.opt.Prefix,", Expect: "c-memory-grow-no-wrap"},
 		{Name: "memory.grow compares the delta signed", File: f, Old: "if((uint32_t)R%d.i32 <= (uint32_t)(%s_memory_init_max_pages-%s_memory_size)) {", New: "if(R%d.i32 <= (%s_memory_init_max_pages-%s_memory_size)) {", Expect: "c-memory-grow-no-wrap"},
 		{Name: "implicit return pops the results first to last", File: f, Old: "\t\t\tfor i := len(fn.Type.Results) - 1; i >= 0; i-- {\n\t\t\t\txType := fn.Type.Results[i]\n\t\t\t\tspi := stk.Pop(xType)", New: "\t\t\tfor i, xType := range fn.Type.Results {\n\t\t\t\tspi := stk.Pop(xType)", Expect: "list-stack-order :: wat2cWorker.buildFunc_body"},
@@ -121,6 +125,9 @@ func runC03(c *Ctx) {
 	c03UnionMembers(c, p, pk)
 	c03IndexLoops(c, p, pk, 14)
 	c03EpilogueDecision(c, p, pk)
+	c.Min("carried-results-located", "result moves in the branch arms of wat2c", carriedResultsLocated(c, p, pk, "wat2c"), 2)
+	c.Min("switch-arm-statements-labelled", "br_table iterations of wat2c", switchArmStatementsLabelled(c, p, pk), 5)
+	c.Min("br-table-accepts-default-only", "br_table arm of wat2c", brTableAcceptsDefaultOnly(c, p, pk, "wat2c"), 1)
 	c.Min("float-literal-exact", "float values written into the generated C code", floatLiteralExact(c, p, pk, []string{"//"}, ""), 6)
 	c03Prelude(c)
 	var names []string
